@@ -1060,6 +1060,7 @@ class SyncObj(object):
 
     def __onNodeDisconnected(self, node):
         self.__connectedNodes.discard(node)
+        self.__serializer.cancelTransmisstion(node)
 
     def __getCurrentLogIndex(self):
         return self.__raftLog[-1][1]
